@@ -19,6 +19,16 @@ myth_freelist_t **g_myth_freelist;
 
 __thread unsigned int g_myth_random_temp = 0;
 
+#ifdef MYTH_VERIF
+void (*volatile myth_verif_point_fn)(int) = 0;
+void (*volatile myth_verif_spin_fn)(int) = 0;
+void (*volatile myth_verif_fence_fn)(int) = 0;
+void (*volatile myth_verif_worker_fn)(int, unsigned int *) = 0;
+void (*volatile myth_verif_alloc_fn)(int, void *, size_t, int) = 0;
+void (*volatile myth_verif_free_fn)(int, void *, size_t, int) = 0;
+int  (*volatile myth_verif_clock_fn)(struct timespec *) = 0;
+#endif
+
 __thread uint64_t g_myth_flmalloc_cycles = 0, g_myth_flmalloc_cnt = 0;
 __thread uint64_t g_myth_flfree_cycles = 0, g_myth_flfree_cnt = 0;
 
